@@ -21,3 +21,16 @@ func VerifModuleAttrNames(m *Module) []string {
 	sort.Strings(names)
 	return names
 }
+
+const verifOn = true
+
+// VerifSync, when set, observes the lock discipline of the package-level
+// registries. ev is "lock", "unlock", "read" or "write"; name is the mutex or
+// the shared object (typeConverters, goTypeRegistry, GoType.converter).
+var VerifSync func(ev, name string)
+
+func verifSync(ev, name string) {
+	if VerifSync != nil {
+		VerifSync(ev, name)
+	}
+}
